@@ -1537,6 +1537,15 @@ func runSealedCase(c *engine.Ctx, sc sealedCase) {
 		} else {
 			r.Broken(fmt.Sprintf("sealed: harness panic in case %s: %v\n%s", engine.J(sc), p, st))
 		}
+	case x.failed != "" && strings.Contains(x.failed, "(nodeenrollment."):
+		// a library call of an honest flow under a storage wrapper returned an error: what was sealed
+		// with the wrapper did not come back through it
+		r.Count("scenario_failed", 1)
+		step := x.failed
+		if i := strings.Index(step, ":"); i > 0 {
+			step = step[:i]
+		}
+		r.Violation("honest-flow-failed-under-wrapper:"+step, "an honest flow under a storage wrapper could not be completed: "+x.failed, x.witness(sealedWitness{Detail: x.failed}))
 	case x.failed != "":
 		r.Count("scenario_failed", 1)
 		r.Broken("sealed: scenario " + engine.J(sc) + " could not be completed: " + x.failed)
